@@ -347,7 +347,7 @@ package query
 //@   modifies nothing
 
 //@ func (*View).Swap
-//@   property C07
+//@   property C07 C17
 //@   safety
 //@   requires view != nil && 0 <= i && i < len(view.RecordSet) && 0 <= j && j < len(view.RecordSet)
 //@   requires len(view.sortValuesInEachRecord) == len(view.RecordSet) && (view.sortValuesInEachCell != nil ==> len(view.sortValuesInEachCell) == len(view.RecordSet))
